@@ -62,6 +62,7 @@ type Step struct {
 type Program struct {
 	Sc      int    `json:"sc"`
 	Tag     string `json:"tag"`
+	Racy    bool   `json:"racy"` // the specification says the probe of this program is undetermined
 	H       []Step `json:"h"`
 	Attach  int    `json:"attach"`  // tick at which a follower is started, -1: none
 	Jitter  int    `json:"jitter"`  // ms slept before the program starts (phase against the sweeper)
@@ -679,7 +680,11 @@ func Run(p *Program, o Options) (*Result, error) {
 	res.MaxRttMs = atomic.LoadInt64(&maxRtt) / 1e6
 	res.LateMs = late / 1e6
 	if probe != nil {
-		res.ProbeVoid = res.LateMs > int64(o.LateMs) || res.StallMs > int64(o.StallMs) || res.MaxRttMs > int64(o.StallMs)
+		res.ProbeVoid = p.Racy || res.LateMs > int64(o.LateMs) || res.StallMs > int64(o.StallMs) || res.MaxRttMs > int64(o.StallMs)
+		if res.ProbeVoid {
+			res.ProbeSkip = len(probe.Exp) + len(probe.HExp)
+			probe = &Step{}
+		}
 		for _, e := range probe.Exp {
 			if e.V == "unsure" {
 				res.ProbeSkip++
